@@ -68,7 +68,7 @@ func (f Child) remove(value any) (out any, changed bool) {
 	return
 }
 
-func (f Child) locate(pp Expr, data any, rest Expr, max int) (locs []Expr) {
+func (f Child) locate(pp Expr, data any, rest Expr, max int, root any) (locs []Expr) {
 	var (
 		v   any
 		has bool
@@ -84,7 +84,7 @@ func (f Child) locate(pp Expr, data any, rest Expr, max int) (locs []Expr) {
 		v, has = reflectGetChild(td, string(f))
 	}
 	if has {
-		locs = locateNthChildHas(pp, f, v, rest, max)
+		locs = locateNthChildHas(pp, f, v, rest, max, root)
 	}
 	return
 }
